@@ -3,7 +3,8 @@
 An address IS the pair (version, integer value).  ip_address(n) for an integer n yields the IPv4 address of value n when 0 <= n < 2**32, the IPv6
 address of value n when 2**32 <= n < 2**128 and raises ValueError otherwise (the documented behaviour: IPv4 is tried first); ip_address(a) for an
 address object yields an address of the same version and value; int(a) is the value; two addresses are equal iff version and value are.
-Text forms (str, compressed, exploded) are outside the model (Unsupported -> the obligation is undecided, never a verdict).
+str(a) is an abstract text that carries version and value and that ip_address() maps back to the same address; the characters of the text
+forms are outside the model (Unsupported -> the obligation is undecided, never a verdict).
 Sampled against the real module by C01.cross[ipaddress model].
 """
 import z3
@@ -24,6 +25,17 @@ class SymIP:
 
     def __repr__(self):
         return f"<symbolic IPv{self.version} address {self.value!r}>"
+
+
+class IPText:
+    """str() of a symbolic address: an abstract text that carries version and value and that ip_address() maps back to the same address
+    (the standard library's contract: ip_address(str(a)) == a, same version; sampled by C14.cross)."""
+
+    def __init__(self, ip):
+        self.ip = ip
+
+    def __repr__(self):
+        return f"<text of {self.ip!r}>"
 
 
 def ip_address_of_int(it, n):
